@@ -563,6 +563,48 @@ example : ∃ g, GridSpec.webTiles id 3 (2 : Nat) 256 = .ok g := by
 end web
 
 
+/-! ## the shared `geobox_cache` (state across a history of queries; any rounding function `fl`) -/
+
+section cache
+variable (fl : Rnd) (tol : Rat) (g : GridSpec)
+
+/-- a fresh cache is coherent -/
+theorem cache_empty_coherent : g.Coherent fl [] := by
+  intro k gb h; simp at h
+
+/-- `tiles(bounds, cache)` with a coherent cache yields exactly what the cache-less call yields (same
+    indices in the same order, each with the geobox of its index); afterwards the cache is still coherent
+    and holds exactly the old keys plus every tile of the query. -/
+theorem tiles_cache_transparent (q : BBox) (c : Cache) (hc : g.Coherent fl c) :
+    (g.tilesC fl tol q c).1 = (g.tiles fl tol q).map (fun k => (k, g.tileGeobox fl k)) ∧
+    g.Coherent fl (g.tilesC fl tol q c).2 ∧
+    ∀ k, ((g.tilesC fl tol q c).2.lookup k).isSome ↔ ((c.lookup k).isSome ∨ k ∈ g.tiles fl tol q) :=
+  GridSpec.tilesGo_spec fl g _ c hc
+
+/-- `polygon_query_cache_independent`: with a coherent cache — in particular one filled by ANY earlier
+    history of bbox / polygon queries on this grid — the polygon query returns exactly the tiles the
+    cache-less query returns (cached tiles are still tested against the polygon); the cache stays coherent and
+    afterwards holds the old keys plus every tile of the polygon's bounding box (also the filtered-out ones). -/
+theorem polygon_query_cache_independent (q : BBox) (dj : GeoBox → Bool) (c : Cache) (hc : g.Coherent fl c) :
+    (g.tilesFromPolygonC fl tol q dj c).1.map (·.1) = g.tilesFromPolygon fl tol q dj ∧
+    (∀ e ∈ (g.tilesFromPolygonC fl tol q dj c).1, e.2 = g.tileGeobox fl e.1) ∧
+    g.Coherent fl (g.tilesFromPolygonC fl tol q dj c).2 ∧
+    ∀ k, ((g.tilesFromPolygonC fl tol q dj c).2.lookup k).isSome ↔
+      ((c.lookup k).isSome ∨ k ∈ g.tiles fl tol q) := by
+  obtain ⟨h1, h2, h3⟩ := tiles_cache_transparent fl tol g q c hc
+  unfold GridSpec.tilesFromPolygonC GridSpec.tilesFromPolygon
+  simp only
+  rw [h1]
+  refine ⟨?_, ?_, h2, h3⟩
+  · rw [List.filter_map, List.map_map]
+    simp [Function.comp_def]
+  · intro e he
+    rw [List.mem_filter, List.mem_map] at he
+    obtain ⟨⟨k, _, rfl⟩, _⟩ := he
+    rfl
+
+end cache
+
 /-! ## non-vacuity of the hypotheses used above -/
 
 example : ∃ g, GridSpec.new id 2 3 (-3 / 4) (1 / 4) (-3 / 4) (5 / 2) true false = .ok g :=
